@@ -70,7 +70,17 @@ def validate(ctx, trace, classify, drop_stops=None, max_known=6, timeout=1200):
             ev = json.loads(lines[ln - 1])
         except Exception:
             pass
-        key = classify(ev)
+        opened = {}
+        for i in range(ln - 1, -1, -1):       # the Open event a C23 step belongs to
+            if lines[i].startswith('{"e":"Open"'):
+                try:
+                    opened = json.loads(lines[i])
+                except Exception:
+                    pass
+                break
+            if lines[i].startswith('{"e":"Reset"'):
+                break
+        key = classify(ev, opened)
         what = "%s rejected: %s" % (ev.get("e"), ev.get("text") or ev.get("err") or "")
         if ctx.report_rejection(cur, res, key=key, what=what[:300]):
             return False          # VIOLATION printed
@@ -86,3 +96,13 @@ def validate(ctx, trace, classify, drop_stops=None, max_known=6, timeout=1200):
     ctx.log("more than %d known-finding rejections in one trace; rest not validated" % max_known)
     ctx.cov["exhaustive"] = False
     return True
+
+
+def semijoin_rev_key(err, plan):
+    """finding: a reversed semijoin (strategy semijoin-rev) that receives a Select/Lookup passes
+    only its by-columns on to source2.Select although the index chosen for source2 has other
+    columns -> Table.selKeys panics "Sels.Get can't find <col>" or selEnd 'ASSERT FAILED' """
+    err = err or ""
+    if ("Sels.Get can't find" in err or err == "ASSERT FAILED") and "semijoin-rev" in (plan or ""):
+        return "semijoin-rev-select"
+    return None
